@@ -183,6 +183,21 @@ def sx_max(*a, **k):
     return _max(*a, **k)
 
 
+class _FloatMeta(type):
+    def __instancecheck__(cls, x):
+        return isinstance(x, (builtins.float, SymReal))
+
+
+class sx_float(metaclass=_FloatMeta):
+    """float(): a symbolic real stays the same real (floats are idealised as reals)"""
+    def __new__(cls, x=0.0):
+        if isinstance(x, SymReal):
+            return x
+        if isinstance(x, (SymInt, SymBool)):
+            raise EngineLimit('float() of a symbolic integer')
+        return builtins.float(x)
+
+
 _len = builtins.len
 
 
@@ -243,6 +258,7 @@ BUILTIN_SHIMS = {
     'ord': sx_ord,
     'chr': sx_chr,
     'len': sx_len,
+    'float': sx_float,
 }
 
 # library objects replaced *by identity* after a module body has run (import statements bind the
@@ -907,11 +923,21 @@ def state_fingerprint():
     for name in sorted(m for m in sys.modules if m == 'lomond' or m.startswith('lomond.')):
         mod = sys.modules[name]
         for k, v in sorted(vars(mod).items()):
+            if isinstance(v, types.FunctionType) and getattr(v, '__module__', None) == name and (v.__defaults__ or v.__kwdefaults__):
+                out.append((name, k, 'defaults', _fp(list(v.__defaults__ or ()), 4, frozenset()), _fp(dict(v.__kwdefaults__ or {}), 4, frozenset())))
+                continue
             if k.startswith('__') or isinstance(v, (types.ModuleType, types.FunctionType, types.BuiltinFunctionType)):
                 continue
             if isinstance(v, type):
                 if getattr(v, '__module__', None) == name:
                     for ck, cv in sorted(vars(v).items()):
+                        fn = cv.__func__ if isinstance(cv, (classmethod, staticmethod)) else cv
+                        if isinstance(fn, types.FunctionType):
+                            # default argument values are evaluated once and live as long as the function
+                            if fn.__defaults__ or fn.__kwdefaults__:
+                                out.append((name, k, ck, 'defaults', _fp(list(fn.__defaults__ or ()), 4, frozenset()),
+                                            _fp(dict(fn.__kwdefaults__ or {}), 4, frozenset())))
+                            continue
                         if ck.startswith('__') or callable(cv) or isinstance(cv, (property, classmethod, staticmethod, types.MemberDescriptorType)):
                             continue
                         out.append((name, k, ck, _fp(cv, 4, frozenset())))
